@@ -83,7 +83,7 @@ func cmdJob(args []string) {
 		res = hist.ExplorePtrKeys(*uni, *tier, *deadline)
 	case *prop == "C17" && strings.HasPrefix(*uni, "churn/"):
 		res = hist.ExploreChurn(*uni, *tier, *deadline)
-	case *prop == "C17" && (strings.HasPrefix(*uni, "release/") || strings.HasPrefix(*uni, "bulk/")):
+	case *prop == "C17" && (strings.HasPrefix(*uni, "release/") || strings.HasPrefix(*uni, "bulk/") || strings.HasPrefix(*uni, "spread/")):
 		res = hist.ExploreRelease(*uni, *tier, *deadline)
 	case *prop == "C17":
 		u, err := hist.FindUniverse("C17", *tier, *uni)
